@@ -54,14 +54,23 @@ class B(object):
     def bm(self, same: int = 7, other: str = "k", *, bkw: int = 0):
         return same
 
+    def bn(self, lead, mid: int, tail: str = "t", *, kreq, kopt: int = 4):
+        return lead
+
 
 def fout(same: int = 9, q: str = "z"):
     return same
+
+
+def fnd(p, q, r=3, s=4):
+    return p
 '''
 IN_LOCS = {"a_const": "annassign", "b_plain": "assign", "A.attr1": "classattr", "A.meth.marg": "arg", "A.meth.mkw": "kwarg",
            "fin.fnodef": "arg", "fin.farg": "arg", "fin.fkw": "kwarg", "helper.same": "arg"}
 OUT_LOCS = {"x_const": "annassign", "B.battr": "classattr", "B.same": "classattr", "B.bm.same": "arg", "B.bm.other": "arg", "B.bm.bkw": "kwarg",
-            "fout.same": "arg", "fout.q": "arg", "helper.same": "arg"}
+            "fout.same": "arg", "fout.q": "arg", "helper.same": "arg",
+            # arguments without a default, left of arguments that have one (defaults are right-aligned; kw_defaults hold None)
+            "B.bn.lead": "arg", "B.bn.mid": "arg", "B.bn.kreq": "kwarg", "B.bn.kopt": "kwarg", "fnd.p": "arg", "fnd.q": "arg", "fnd.s": "arg"}
 BOGUS_IN = ["nope", "A.nope", "fin.nope", "A.meth.zz.q"]
 BOGUS_OUT = ["nada", "B.nada", "fout.nada", "B.bm.same.x"]
 WRAP = "Optional[Union[{output_param}, str]]"
@@ -288,5 +297,5 @@ def run(prop="C14", propose=False, replay=None):
                         "random 2-3 pair calls, unresolved input / output addresses",
                 "samples": [{k: v for k, v in r.items() if k in ("pairs", "wrap", "eval", "exc", "got", "want", "changed")} for r in res[:: max(1, len(res) // 3)][:3]]})
     return R.finish(prop, "model_checking", cov, timer, violations[:200], matcher.report_lines(),
-                    ["two fixed modules with 9 addressable locations each (plus same-named parameters in other definitions)",
+                    ["two fixed modules with 9 / 16 addressable locations (plus same-named parameters in other definitions)",
                      "the addressed node's own default value is not judged; every other node is compared by name, annotation and default"])
